@@ -45,8 +45,9 @@ def main() -> int:
     subprocess.run(["git", "-C", "/repo", "worktree", "add", "--detach", wt, "HEAD"], check=True, capture_output=True)
     rec = {"property": a.pid, "seed_id": a.seed_id}
     try:
-        shutil.copy(demo, os.path.join(wt, "_demo.py"))
-        rc0, out0 = sh(["/venv/bin/python", "_demo.py"], wt)
+        os.makedirs(os.path.join(wt, "_out", "1"), exist_ok=True)  # the layout the demonstration was written for
+        shutil.copy(demo, os.path.join(wt, "_out", "1", "demo.py"))
+        rc0, out0 = sh(["/venv/bin/python", "_out/1/demo.py"], wt)
         rec["demo_unchanged_exit"] = rc0
         files = re.findall(r"^\+\+\+ b/(\S+)", open(patch).read(), re.M)
         rec["files"] = files
@@ -69,7 +70,7 @@ def main() -> int:
         if rca != 0:
             rec["error"] = outa[-300:]
         else:
-            rc1, out1 = sh(["/venv/bin/python", "_demo.py"], wt)
+            rc1, out1 = sh(["/venv/bin/python", "_out/1/demo.py"], wt)
             rec["demo_changed_exit"] = rc1
             rec["demo_changed_tail"] = out1.strip().splitlines()[-3:]
             rct, outt = sh(cmd, wt)
